@@ -222,7 +222,8 @@ void run_case(Tape& t, Stats& st) {
 	default: {
 		unsigned k = unsigned(t.below(3));
 		if (k == 0) clm_name_case(6 + unsigned(t.below(7)), st);
-		else if (k == 1) { std::string stem; unsigned n = 1 + unsigned(t.below(13)); for (unsigned i = 0; i < n; ++i) stem.push_back(t.below(4) == 0 ? '.' : char('a' + t.below(26))); if (stem == "." || stem == "..") stem += "x"; std::string ext = ".wav"; if (t.below(3) == 0 && stem.find('.') == std::string::npos) { ext = "."; unsigned en = 1 + unsigned(t.below(6)); for (unsigned i = 0; i < en; ++i) ext.push_back(char('a' + t.below(26))); } clm_stem_case(stem, st, ext); }
+		else if (k == 1) { std::string stem; unsigned n = 1 + unsigned(t.below(13)); for (unsigned i = 0; i < n; ++i) stem.push_back(t.below(4) == 0 ? '.' : char('a' + t.below(26))); if (stem == "." || stem == "..") stem += "x";
+			if (t.below(4) == 0) { std::string mb = t.pick<std::string>({"\xC3\xA9", "\xE2\x82\xAC", "\xF0\x9F\x8E\xB5", "\xCC\x81", "\xFF", "\x80"}); stem.insert(t.below(stem.size() + 1), mb); if (t.flag()) stem.insert(t.below(stem.size() + 1), mb); }   /* bytes of multi-byte characters: the field counts bytes */ std::string ext = ".wav"; if (t.below(3) == 0 && stem.find('.') == std::string::npos) { ext = "."; unsigned en = 1 + unsigned(t.below(6)); for (unsigned i = 0; i < en; ++i) ext.push_back(char('a' + t.below(26))); } clm_stem_case(stem, st, ext); }
 		else { unsigned c = unsigned(t.below(128)), d = 1 + unsigned(t.below(127)); if (c + d > 127) d = 127 - c; if (d == 0) { c = 3; d = 4; } layer_multi_case({{c, c + d}, {c + d, c}}, t.flag(), st); st.nt(hmix(c, d) ^ 0x2F); }
 		break; }
 	}
@@ -241,6 +242,9 @@ void run_sweep(Stats& st) {
 	for (unsigned len = 7; len <= 10; ++len) if (sw("clm_name", len)) clm_name_case(len, st);
 	{ const char* stems[] = {"abcd.efg", "abcdefgh.x", "abc.defghi", "a.b.c.d.e", "a.b", "snd1.take2", "abcdefg.h", ".hidden", ".longername", "a..b", "12345678.9", "x.wav"};
 	  for (unsigned i = 0; i < sizeof stems / sizeof stems[0]; ++i) if (sw("clm_stem", i)) clm_stem_case(stems[i], st); }
+	// the field holds 8 BYTES: names whose text is short when counted in characters of some multi-byte encoding but longer than 8 bytes do not fit
+	{ const char* stems[] = {"c20icaf\xC3\xA9", "\xC3\xA9\xC3\xA9\xC3\xA9\xC3\xA9\xC3\xA9\xC3\xA9\xC3\xA9\xC3\xA9", "ab\xE2\x82\xAC" "cdefg", "\xF0\x9F\x8E\xB5" "sound", "abcdefg\xC3\xA9", "na\xC3\xAFve", "\xC3\xA9\xC3\xA9\xC3\xA9\xC3\xA9", "abcdefgh\xCC\x81", "\xFF\xFE" "abcdefg", "abcdefg\x80\x80"};
+	  for (unsigned i = 0; i < sizeof stems / sizeof stems[0]; ++i) if (sw("clm_stem_multibyte", i)) clm_stem_case(stems[i], st); }
 	// the limit is on the name without its extension, whatever the extension is (a length test on the whole file name would be wrong both ways)
 	{ const char* cases[][2] = {{"eightchr", ".wave"}, {"eightchr", ".w"}, {"eightchr", ".audio"}, {"ninechars", ".wv"}, {"ninechars", ".w"}, {"tenletters", ".x"}, {"sevench", ".wavefile"}, {"a", ".longextension"}, {"ninechars", ".wavx"}};
 	  for (unsigned i = 0; i < sizeof cases / sizeof cases[0]; ++i) if (sw("clm_stem_ext", i)) clm_stem_case(cases[i][0], st, cases[i][1]); }
